@@ -271,7 +271,20 @@ pub fn run_terms(ch: &mut Choices, verbose: bool) -> TermsReport {
     let wide = ch.chance(1, 6);
     // "deep" runs: narrow descriptions nested 5-22 levels
     let deep = !wide && ch.chance(1, 8);
-    let gp = if deep {
+    // "huge" runs: one flat container with 60-300 distinct elements, few realisations
+    let huge = !wide && !deep && ch.chance(1, 40);
+    let gp = if huge {
+        GenParams {
+            max_depth: 1,
+            max_fan: ch.range(60, 300),
+            n_names: 14,
+            unordered_bias: 3,
+            exotic: false,
+            stop_den: 3,
+            cjk_names: false,
+            many_names: true,
+        }
+    } else if deep {
         GenParams {
             max_depth: ch.range(5, 22),
             max_fan: 2,
@@ -280,6 +293,7 @@ pub fn run_terms(ch: &mut Choices, verbose: bool) -> TermsReport {
             exotic: false,
             stop_den: 8,
             cjk_names: false,
+            many_names: false,
         }
     } else if wide {
         GenParams {
@@ -290,6 +304,7 @@ pub fn run_terms(ch: &mut Choices, verbose: bool) -> TermsReport {
             exotic: false,
             stop_den: 3,
             cjk_names: false,
+            many_names: false,
         }
     } else {
         GenParams {
@@ -300,6 +315,7 @@ pub fn run_terms(ch: &mut Choices, verbose: bool) -> TermsReport {
             exotic: ch.chance(1, 5),
             stop_den: 3,
             cjk_names: false,
+            many_names: false,
         }
     };
     // caller threads: in "hop" runs some values are built, hashed or compared on another thread
@@ -318,8 +334,8 @@ pub fn run_terms(ch: &mut Choices, verbose: bool) -> TermsReport {
         wrap: ch.choose(4),
         text_routes: !ch.chance(1, 4),
     };
-    let k_real = ch.range(2, 4);
-    let m_near = ch.range(0, 3);
+    let k_real = if huge { 2 } else { ch.range(2, 4) };
+    let m_near = if huge { ch.range(0, 1) } else { ch.range(0, 3) };
     let outer_key = ((ch.bits() as u64) << 16) ^ 0xabcd;
     stats.tape_mode = tape_mode;
     install_tape(tape_mode, tape_seed);
